@@ -75,9 +75,10 @@ func c17StepMode(c *c17StepCase) string {
 	switch {
 	case c.Step == 0:
 		return "raw"
-	case c17InstantFuncs[c.Func] || c.Func == "":
+	case (c17InstantFuncs[c.Func] || c.Func == "") && c.Range == 0 && 300000%c.Step == 0:
+		// an instant selector and a step that divides the engine's lookback delta: every evaluation time is a bucket end
 		return "bucket"
-	case c17RangeFuncs[c.Func] && c.Step > c.Range:
+	case c17RangeFuncs[c.Func] && c.Range > 0 && c.Step > c.Range:
 		return "rangefilter"
 	}
 	return "raw"
@@ -169,17 +170,19 @@ func c17StepWantOpt(c *c17StepCase, s c17E2ESeries, firstExcl bool) []model.Samp
 			res = append(res, model.Sample{TimestampMs: x[0], Value: float64(x[1])})
 		}
 	case "bucket":
-		// bucket k = (Start + (k−1)·Step, Start + k·Step], its last sample, re-timed to the bucket end
+		// bucket k = (Start + (k−1)·Step, Start + k·Step]: its last sample, with its own time
+		last := int64(0)
 		for _, x := range sm {
 			if x[0] < c.Start || x[0] > c.End {
 				continue
 			}
 			be := (x[0]-c.Start+c.Step-1)/c.Step*c.Step + c.Start
-			if n := len(res); n > 0 && res[n-1].TimestampMs == be {
-				res[n-1].Value = float64(x[1])
+			if n := len(res); n > 0 && last == be {
+				res[n-1] = model.Sample{TimestampMs: x[0], Value: float64(x[1])}
 			} else {
-				res = append(res, model.Sample{TimestampMs: be, Value: float64(x[1])})
+				res = append(res, model.Sample{TimestampMs: x[0], Value: float64(x[1])})
 			}
+			last = be
 		}
 	case "downsample":
 		filtered := c17RangeFuncs[c.Func] && c.Step > c.Range
@@ -359,12 +362,12 @@ func c17RunStep(r *h.Result, sc *fakes.Script, q storage.Querier, c *c17StepCase
 					if st[0] < c.Start || st[0] > c.End || float64(st[1]) != x.Value {
 						continue
 					}
-					if st[0] == x.TimestampMs || (mode == "bucket" && st[0] <= x.TimestampMs && x.TimestampMs < st[0]+c.Step && (x.TimestampMs-c.Start)%c.Step == 0) {
+					if st[0] == x.TimestampMs { // with its own time, also on the per-step aggregation
 						found = true
 					}
 				}
 				if !found {
-					r.Violate("C17/step-sample-not-stored", fmt.Sprintf("[%s] series %v: returned sample %d:%v is not a stored in-window sample of this series (re-timed to its bucket end at most)", mode, ls, x.TimestampMs, x.Value), *c)
+					r.Violate("C17/step-sample-not-stored", fmt.Sprintf("[%s] series %v: returned sample %d:%v is not a stored in-window sample of this series (time and value)", mode, ls, x.TimestampMs, x.Value), *c)
 				}
 			}
 		}
@@ -572,10 +575,15 @@ func c17StepText(c *c17StepCase, seen []string) (ops, impl []string, err error) 
 			}
 		}
 	}
-	var mparts []string
+	var cms []*labels.Matcher
 	for _, m := range c.Matchers {
-		mparts = append(mparts, c17TypeName(c17MatchType(m.Type))+":"+h.Hex([]byte(m.Name))+":"+h.Hex([]byte(m.Value)))
+		lm, err := labels.NewMatcher(c17MatchType(m.Type), m.Name, m.Value)
+		if err != nil {
+			return nil, nil, fmt.Errorf("generator made an invalid matcher: %v", err)
+		}
+		cms = append(cms, lm)
 	}
+	mparts := []string{c17MatcherArgs(cms)}
 	date := time.Unix(0, c.Start*1000000).UTC().Add(-30 * time.Minute).Format("2006-01-02")
 	fn := c.Func
 	if fn == "" {
@@ -617,7 +625,8 @@ func c17DownTie(c *c17StepCase, seen []string, ms []*labels.Matcher, got []c17Se
 	sel := append([]c17E2ESeries(nil), c.Series...)
 	sort.Slice(sel, func(i, j int) bool { return sel[i].Fp < sel[j].Fp })
 	for _, s := range sel {
-		if (s.Type != 2 && s.Type != 0) || !c17IdxSel(s, ms, true) {
+		// the series the label index selects: those whose label set satisfies every matcher (select_matches_prometheus)
+		if (s.Type != 2 && s.Type != 0) || !c17PromSel(s, ms) {
 			continue
 		}
 		for _, a := range c17Rows15(s) {
@@ -789,6 +798,10 @@ func c17StepStream(r *h.Result, rng *h.Rng, n int) error {
 // c17StepCompare: series answers are compared as they are, text answers ("text:"/"text2:" prefix on the implementation
 // side) after collapsing blanks on the model side
 func c17StepCompare(r *h.Result, ops, impl []string, cases []any) error {
+	return c17StepCompareAs(r, "step", ops, impl, cases)
+}
+
+func c17StepCompareAs(r *h.Result, stream string, ops, impl []string, cases []any) error {
 	model, err := h.Model(ops)
 	if err != nil {
 		return err
@@ -817,7 +830,7 @@ func c17StepCompare(r *h.Result, ops, impl []string, cases []any) error {
 			m = strings.Join(f, " ")
 		}
 		if m != im {
-			r.Disagree("step", ops[i], im, m, cases[i])
+			r.Disagree(stream, ops[i], im, m, cases[i])
 		}
 	}
 	return nil
